@@ -202,9 +202,14 @@ def rule_c(repo, chk):
         else:
             w = gate(init, s, none_accept('path'))
             ok = isinstance(s.value, ast.Call) and call_name(s.value) == 'get_parso_cache_node'
+            if not ok and isinstance(s.value, ast.Name):
+                # through a local: every binding of that local is the call
+                defs = [a for a in stmts_in(init, ast.Assign) if any(isinstance(t, ast.Name) and t.id == s.value.id for t in a.targets)]
+                ok = bool(defs) and all(isinstance(a.value, ast.Call) and call_name(a.value) == 'get_parso_cache_node' for a in defs)
             chk.ob('C08.c', ok and w is None, s, 'the cache node comes from get_parso_cache_node(grammar, path) for a real path', w or norm(s.value))
             if ok:
-                g0 = s.value.args[0] if s.value.args else None
+                callv = s.value if isinstance(s.value, ast.Call) else defs[0].value
+                g0 = callv.args[0] if callv.args else None
                 ok2 = isinstance(g0, ast.IfExp) and 'is_stub()' in norm(g0.test) and 'latest_grammar' in norm(g0.body) and norm(g0.orelse).endswith('.grammar')
                 chk.ob('C08.c', ok2, s, 'the grammar used to find the cache node matches the module kind (stub: latest grammar)', short(g0))
     pv = [s for s in stmts_in(init, ast.Assign) if any(isinstance(t, ast.Name) and t.id == 'path' for t in s.targets)]
@@ -317,15 +322,25 @@ def rule_f(repo, chk):
                 continue
             for c in calls_in(f, 'get_parso_cache_node'):
                 st = repo.enclosing_stmt(c)
-                if not (isinstance(st, ast.Assign) and isinstance(st.targets[0], ast.Attribute)):
+                if not isinstance(st, ast.Assign):
+                    continue
+                # the result is kept on the object: directly (`self.x = call`) or through a local that is stored later (`v = call` ... `self.x = v`)
+                holders = []
+                t0 = st.targets[0]
+                if isinstance(t0, ast.Attribute):
+                    holders = [norm(t0)]
+                elif isinstance(t0, ast.Name):
+                    kept = [a for a in stmts_in(f, ast.Assign) if isinstance(a.targets[0], ast.Attribute) and isinstance(a.value, ast.Name) and a.value.id == t0.id]
+                    if kept:
+                        holders = [t0.id] + [norm(a.targets[0]) for a in kept]
+                if not holders:
                     continue        # a plain read of .lines (code_lines of a module that was just parsed through the cache)
                 n += 1
                 hs = [h for t in enclosing_handlers(st, f) for h in t.handlers if handler_types(h) & {'KeyError', 'LookupError', 'Exception'}]
                 chk.ob('C08.f', bool(hs), c, 'a missing cache item (KeyError) is tolerated when %s keeps the parso cache node' % q)
-                tgt = norm(st.targets[0])
                 ident = [x for x in own_nodes(f) if isinstance(x, ast.Compare) and len(x.ops) == 1 and isinstance(x.ops[0], (ast.Is, ast.IsNot))
-                         and norm(x.left) == tgt + '.node' and 'tree_node' in norm(x.comparators[0])]
-                chk.ob('C08.f', bool(ident), c, 'the kept cache node is checked to hold the analysed tree (`%s.node is <module>.tree_node`)' % tgt)
+                         and any(norm(x.left) == h_ + '.node' for h_ in holders) and 'tree_node' in norm(x.comparators[0])]
+                chk.ob('C08.f', bool(ident), c, 'the kept cache node is checked to hold the analysed tree (`<node>.node is <module>.tree_node`)')
     chk.floor('C08.f', n, 1, '(cache nodes kept for memoisation)')
 
 
